@@ -12,6 +12,7 @@ import Driver.ProofMode
 import Driver.FrontMode
 import Driver.StoreMode
 import Driver.QuoteMode
+import Driver.RngMode
 /-! `osmt-model <mode> <file>`: line-protocol driver around the executable models and kernels. -/
 def main (args : List String) : IO UInt32 := do
   match args with
@@ -77,6 +78,10 @@ def main (args : List String) : IO UInt32 := do
   | ["quote", path] =>
     let txt ← IO.FS.readFile path
     for l in Driver.runQuote (txt.splitOn "\n") do IO.println l
+    return 0
+  | ["rng", path] =>
+    let txt ← IO.FS.readFile path
+    for l in Driver.runRng (txt.splitOn "\n") do IO.println l
     return 0
   | ["fk", path] =>
     let txt ← IO.FS.readFile path
